@@ -84,30 +84,7 @@ func runC22(p *core.Program, r *core.Report) {
 			ncalls++
 			key := c.Call.Args[1]
 			construct := core.FnKey(fn) + " evalModule(key=" + addrDesc(key) + ") after a miss for the same key"
-			found := false
-			for _, b := range fn.Blocks {
-				if len(b.Instrs) == 0 {
-					continue
-				}
-				iff, ok := b.Instrs[len(b.Instrs)-1].(*ssa.If)
-				if !ok {
-					continue
-				}
-				ex, ok := iff.Cond.(*ssa.Extract)
-				if !ok || ex.Index != 1 {
-					continue
-				}
-				lookup, ok := ex.Tuple.(*ssa.Call)
-				if !ok || isEvalerMethodCall(lookup, "getModule") == nil {
-					continue
-				}
-				if core.EdgeTo(b, ins.Block()) != 1 {
-					continue
-				}
-				if sameVar(lookup.Call.Args[1], key) {
-					found = true
-				}
-			}
+			found := missDominated(p, ins, key, 0)
 			if found {
 				r.OK("CACHE-KEY", construct, p.InsPos(ins), "dominated by the not-found edge of getModule(k) with the same k that evalModule installs")
 			} else {
@@ -300,6 +277,16 @@ func runC22(p *core.Program, r *core.Report) {
 						}
 					}
 				}
+				if !okLookup {
+					// the lookup may have been made by the (only) callers of
+					// an extracted helper, with the argument that becomes
+					// the path here
+					for _, rd := range reads {
+						if missDominated(p, ev, rd, 0) {
+							okLookup = true
+						}
+					}
+				}
 				if okKey && okLookup {
 					r.OK("KEY-IS-PATH", construct, p.InsPos(ev), "the cache key of both the lookup and the installation is the variable the file name is built from")
 				} else {
@@ -313,19 +300,36 @@ func runC22(p *core.Program, r *core.Report) {
 	// RELATIVE-BASE
 	useFromFile := p.Func(pkgEval, "useFromFile")
 	if r.Anchor("RELATIVE-BASE", "eval.useFromFile", useFromFile != nil) {
+		// the base directory is chosen in use itself or in a helper it calls
 		var dirCall, wdCall *ssa.Call
+		baseFn := use
+		cands := []*ssa.Function{use}
 		core.Instrs(use, func(ins ssa.Instruction) {
 			if c, ok := ins.(*ssa.Call); ok {
-				if callee := c.Call.StaticCallee(); callee != nil {
-					switch callee.String() {
-					case "path/filepath.Dir":
-						dirCall = c
-					case "os.Getwd":
-						wdCall = c
-					}
+				if callee := c.Call.StaticCallee(); callee != nil && core.PkgPathOf(callee) == pkgEval && callee.Blocks != nil {
+					cands = append(cands, callee)
 				}
 			}
 		})
+		for _, cand := range cands {
+			var d, w *ssa.Call
+			core.Instrs(cand, func(ins ssa.Instruction) {
+				if c, ok := ins.(*ssa.Call); ok {
+					if callee := c.Call.StaticCallee(); callee != nil {
+						switch callee.String() {
+						case "path/filepath.Dir":
+							d = c
+						case "os.Getwd":
+							w = c
+						}
+					}
+				}
+			})
+			if d != nil && w != nil {
+				dirCall, wdCall, baseFn = d, w, cand
+				break
+			}
+		}
 		isFileCond := func(v ssa.Value) bool {
 			v = throughCell(v)
 			switch x := v.(type) {
@@ -341,7 +345,7 @@ func runC22(p *core.Program, r *core.Report) {
 			return false
 		}
 		construct := "eval.use relative spec resolved against the importing file or the working directory"
-		if dirCall != nil && wdCall != nil && dominatedByCondEdge(use, isFileCond, true, dirCall.Block()) && dominatedByCondEdge(use, isFileCond, false, wdCall.Block()) {
+		if dirCall != nil && wdCall != nil && dominatedByCondEdge(baseFn, isFileCond, true, dirCall.Block()) && dominatedByCondEdge(baseFn, isFileCond, false, wdCall.Block()) {
 			// Dir's argument must be the source name
 			r.OK("RELATIVE-BASE", construct, p.InsPos(dirCall), "filepath.Dir(source name) on the IsFile edge, os.Getwd() otherwise")
 		} else {
@@ -607,6 +611,11 @@ func runC16(p *core.Program, r *core.Report) {
 					}
 				}
 			}
+			if !okB {
+				if sc, ok := c.Call.Args[0].(*ssa.Call); ok && sc.Call.StaticCallee() != nil && sc.Call.StaticCallee().Name() == "static" {
+					okB = helperReturnsEvalerField(throughCell(sc.Call.Args[0]), "builtin")
+				}
+			}
 			if okB {
 				r.OK("CHECK-AGREE", fk+" compiles against the interpreter's builtin namespace", p.InsPos(ins), "first argument is Evaler.builtin.static()")
 			} else {
@@ -630,4 +639,121 @@ func asIns(v ssa.Value) ssa.Instruction {
 		return i
 	}
 	return nil
+}
+
+// helperReturnsEvalerField: v is a result of a call to a function of pkg/eval
+// all of whose returns give, at that position, the value of Evaler.<field>
+// (a snapshot helper extracted from the caller).
+func helperReturnsEvalerField(v ssa.Value, field string) bool {
+	idx := 0
+	var call *ssa.Call
+	switch x := v.(type) {
+	case *ssa.Extract:
+		idx = x.Index
+		call, _ = x.Tuple.(*ssa.Call)
+	case *ssa.Call:
+		call = x
+	}
+	if call == nil {
+		return false
+	}
+	callee := call.Call.StaticCallee()
+	if callee == nil || core.PkgPathOf(callee) != pkgEval || callee.Blocks == nil {
+		return false
+	}
+	n, ok := 0, true
+	core.Instrs(callee, func(ins ssa.Instruction) {
+		ret, isRet := ins.(*ssa.Return)
+		if !isRet {
+			return
+		}
+		n++
+		if idx >= len(ret.Results) {
+			ok = false
+			return
+		}
+		src := throughCell(ret.Results[idx])
+		good := false
+		if addr, isLd := core.IsLoad(src); isLd {
+			if fa, isFA := addr.(*ssa.FieldAddr); isFA {
+				nt, f := core.FieldName(fa)
+				good = nt != nil && nt.Obj().Name() == "Evaler" && f == field
+			}
+		}
+		if !good {
+			ok = false
+		}
+	})
+	return ok && n > 0
+}
+
+// missDominated: ins is reached only after a lookup of key in the module
+// table failed - in its own function, or, when key is a parameter of an
+// unexported helper, at every call site of that helper (for the argument
+// that becomes the key).
+func missDominated(p *core.Program, ins ssa.Instruction, key ssa.Value, depth int) bool {
+	fn := ins.Parent()
+	for _, b := range fn.Blocks {
+		if len(b.Instrs) == 0 {
+			continue
+		}
+		iff, ok := b.Instrs[len(b.Instrs)-1].(*ssa.If)
+		if !ok {
+			continue
+		}
+		ex, ok := iff.Cond.(*ssa.Extract)
+		if !ok || ex.Index != 1 {
+			continue
+		}
+		lookup, ok := ex.Tuple.(*ssa.Call)
+		if !ok || isEvalerMethodCall(lookup, "getModule") == nil {
+			continue
+		}
+		if core.EdgeTo(b, ins.Block()) != 1 {
+			continue
+		}
+		if sameVar(lookup.Call.Args[1], key) {
+			return true
+		}
+	}
+	if depth >= 2 || fn.Parent() != nil {
+		return false
+	}
+	if obj := fn.Object(); obj == nil || obj.Exported() {
+		return false
+	}
+	// key must be (a single-assignment copy of) a parameter
+	idx := -1
+	kv := throughCell(key)
+	for i, prm := range fn.Params {
+		if kv == ssa.Value(prm) || sameVar(key, prm) {
+			idx = i
+		}
+	}
+	if idx < 0 {
+		return false
+	}
+	n := 0
+	ok := true
+	for _, caller := range p.FnsInPkg(core.PkgPathOf(fn)) {
+		core.Instrs(caller, func(x ssa.Instruction) {
+			c, isCall := x.(ssa.CallInstruction)
+			if !isCall {
+				for _, op := range x.Operands(nil) {
+					if *op == ssa.Value(fn) {
+						ok = false // the helper escapes as a value
+					}
+				}
+				return
+			}
+			if c.Common().StaticCallee() != fn {
+				return
+			}
+			n++
+			if idx >= len(c.Common().Args) || !missDominated(p, x, c.Common().Args[idx], depth+1) {
+				ok = false
+			}
+		})
+	}
+	return ok && n > 0
 }
